@@ -324,6 +324,24 @@ def bound_spec(draw, n, col, allow_omit):
 
 
 @st.composite
+def subset_items(draw, a, item):
+    """the list operand of `[..] in array`: the operation has SET semantics, so lists with repeated values, lists longer
+    than the stored array, permutations and supersets matter as much as short lists"""
+    shape = draw(st.sampled_from(['members', 'short', 'dup', 'long', 'members', 'dup']))
+    if shape == 'short' or not a:
+        return draw(st.lists(item, max_size=3 if shape == 'short' else 6))
+    if shape == 'members':          # only values that are in the array, any length up to a few more than it has
+        return draw(st.lists(st.sampled_from(a), max_size=len(a) + 3))
+    if shape == 'dup':              # every value of the array in some order, some of them repeated, rarely a stranger
+        out = draw(st.permutations(a))
+        out = list(out) + draw(st.lists(st.sampled_from(a), max_size=3))
+        if draw(st.integers(0, 5)) == 0:
+            out.insert(draw(st.integers(0, len(out))), draw(item))
+        return out
+    return draw(st.lists(item, max_size=len(a) + 3))
+
+
+@st.composite
 def array_case(draw):
     rows = draw(st.lists(array_row(), min_size=1, max_size=3))
     attr = draw(st.sampled_from(['ia', 'sa', 'fa', 'ra']))
@@ -344,7 +362,7 @@ def array_case(draw):
     elif t == 'contains':
         op.update(item=draw(item), im=mode, neg=draw(st.booleans()))
     elif t == 'subset':
-        op.update(items=draw(st.lists(item, max_size=3)), im=mode, neg=draw(st.booleans()))
+        op.update(items=draw(subset_items(a, item)), im=mode, neg=draw(st.booleans()))
     elif t == 'lencmp':
         op.update(cmp=draw(st.sampled_from(CMPS)), val=draw(st.sampled_from([len(a), len(a), 0, len(a) + 1])), vm=mode)
     elif t == 'truth':
